@@ -519,8 +519,12 @@ impl P2p {
         }
 
         let height = from.height() + 1;
+        let last_height = from
+            .height()
+            .checked_add(amount)
+            .ok_or(HeaderExError::InvalidRequest)?;
 
-        let range = height..=height + amount - 1;
+        let range = height..=last_height;
 
         let mut session = HeaderSession::new(range, self.cmd_tx.clone());
         let headers = session.run().await?;
